@@ -34,6 +34,6 @@ git checkout -q . && git clean -fdq
 echo "--- checks in /repo with patch applied"
 cd /repo && git apply $SRC/patch.diff || { echo "patch does not apply to /repo"; exit 2; }
 OUT=/verif/out/seed_$NAME.log; : > $OUT
-for C in ${CHECKS:-$P}; do (cd /verif && timeout ${SEED_TIMEOUT:-900} ./check $C quick > /verif/out/seed_${NAME}_$C.log 2>&1; echo "check $C exit=$?" | tee -a $OUT; grep -h "^VIOLATION\|^  harness=\|ENGINE-ERROR" /verif/out/seed_${NAME}_$C.log | cut -c1-260 | head -8 | tee -a $OUT); done
+for C in ${CHECKS:-${P%b}}; do (cd /verif && timeout ${SEED_TIMEOUT:-900} ./check $C quick > /verif/out/seed_${NAME}_$C.log 2>&1; echo "check $C exit=$?" | tee -a $OUT; grep -h "^VIOLATION\|^  harness=\|ENGINE-ERROR" /verif/out/seed_${NAME}_$C.log | cut -c1-260 | head -8 | tee -a $OUT); done
 cd /repo && git checkout -q -- . && git status --short | head -3
 mkdir -p /verif/seeded/$NAME && cp $SRC/patch.diff /verif/seeded/$NAME/ && cp $DEMO /verif/seeded/$NAME/ && cp $SRC/meta.json /verif/seeded/$NAME/agent_meta.json && cp $OUT /verif/seeded/$NAME/check_result.txt
